@@ -5,6 +5,10 @@ case = [op, fa, a, fb, b]
   op   0 +   1 -   2 *   3 //   4 %   5 **   6 unary minus (b unused)   7 comparison (<, ==, >)
   form 0 integer literal in the expression text | 1 i64 | 2 u64 | 3 i128 | 4 u128 value
        5 f64 value (a/b = bit pattern) | 6 float literal in the text (bit pattern, finite)
+       100*route + type: the same integer supplied by another ROUTE at another Rust width
+         route 1 Value::from(x) | 2 Value::from(Serde(x)) | 3 field of a serialized struct | 4 element of a serialized Vec
+               5 value of a serialized map | 6 round trip Value::from(x) -> T::deserialize -> Serde(t) | 7 Serde(Some(x))
+         type  0 i8 1 i16 2 i32 3 i64 4 i128 5 isize 6 u8 7 u16 8 u32 9 u64 10 u128 11 usize
 impl/model output: [0,z] integer | [4,bits] float | [1,code] error | [2] panic | [5,lt,eq,gt] | [9] n/a
 """
 import os, sys, re, collections, struct, math
@@ -17,6 +21,34 @@ OPS = ["+", "-", "*", "//", "%", "**", "neg", "cmp"]
 FORMS = ["literal", "i64", "u64", "i128", "u128", "f64", "float-literal"]
 P127, P128, P63, P64 = 2**127, 2**128, 2**63, 2**64
 NANB = 0x7ff8000000000000
+ROUTES = {1: "From", 2: "Serde", 3: "struct-field", 4: "vec-element", 5: "map-value", 6: "deserialize-roundtrip", 7: "Serde(Some)"}
+RTYPES = ["i8", "i16", "i32", "i64", "i128", "isize", "u8", "u16", "u32", "u64", "u128", "usize"]
+RRANGE = [(-2**7, 2**7 - 1), (-2**15, 2**15 - 1), (-2**31, 2**31 - 1), (-2**63, 2**63 - 1), (-2**127, 2**127 - 1), (-2**63, 2**63 - 1),
+          (0, 2**8 - 1), (0, 2**16 - 1), (0, 2**32 - 1), (0, 2**64 - 1), (0, 2**128 - 1), (0, 2**64 - 1)]
+
+
+def form_name(f):
+    if f >= 100:
+        return "%s<%s>" % (ROUTES.get(f // 100, "?"), RTYPES[f % 100] if f % 100 < len(RTYPES) else "?")
+    return FORMS[f]
+
+
+def route_forms(z, dense):
+    """every (route, Rust type) able to deliver z.  Sparse mode keeps all routes for the 128-bit types and for the
+    narrowest signed / unsigned type, and the two serde routes (2, 6) for the wider ones."""
+    fits = [t for t, (lo, hi) in enumerate(RRANGE) if lo <= z <= hi]
+    narrow = set()
+    for group in ((0, 1, 2, 3), (6, 7, 8, 9)):
+        g = [t for t in group if t in fits]
+        if g: narrow.add(g[0])
+    out = []
+    for t in fits:
+        full = dense or t in (4, 10) or t in narrow
+        for r in (ROUTES if full else (2, 6)):
+            out.append(100 * r + t)
+    return out
+
+
 
 # the property's boundary pool (plus exponent boundaries for **)
 POOL = sorted(set([0, 1, -1, 2, -2, 3, -3, 7, -7, 10, 63, 64, 127, 128,
@@ -66,14 +98,15 @@ def operand_value(f, v):
 def describe(c):
     def opnd(f, v):
         if is_float_form(f):
-            return "%r as %s (bits %d)" % (b2f(v), FORMS[f], v)
-        return "%d as %s" % (v, FORMS[f])
+            return "%r as %s (bits %d)" % (b2f(v), form_name(f), v)
+        return "%d as %s" % (v, form_name(f))
     d = {"op": OPS[c[0]], "a": opnd(c[1], c[2])}
     if c[0] != 6:
         d["b"] = opnd(c[3], c[4])
     def txt(f, v, name):
         if f == 0: return str(v)
         if f == 6: return repr(b2f(v))
+        if f >= 100: return name + {3: ".v", 4: "[0]", 5: ".k"}.get(f // 100, "")
         return name
     if c[0] == 6:
         t = txt(c[1], c[2], "a")
@@ -142,6 +175,48 @@ def gen_int(chk):
         for fa in fas:
             cases.append([6, fa, a, 0, 0])
     return cases, box_n
+
+
+# values at which a supply route could go wrong: the edges of every Rust integer type and of the 64/128 bit representations
+RPOOL = sorted(set(POOL + [P128 - P63, P128 - P63 - 1, P128 - P63 + 1, P128 - 2, P64, P64 - 2, P63 - 2,
+                           127, 128, -128, -129, 255, 256, 32767, 32768, -32768, -32769, 65535, 65536,
+                           2**31 - 1, 2**31, -(2**31), -(2**31) - 1, 2**32 - 1, 2**32, -P63 + 1, -P127 + 1, 5, -5]))
+
+
+def gen_routes(chk):
+    """the supply route as an input dimension: every pool value through every route/width, all operators, both positions"""
+    rng = chk.rng
+    cases = []
+    for a in RPOOL:
+        rf = route_forms(a, chk.thorough)
+        for fa in rf:
+            cases.append([6, fa, a, 0, 0])
+            partners = [(1, 1), (0, 10), (1, -1)] if chk.thorough else [(1, 1), (0, 10)]
+            for fb, b in partners:
+                cases += all_ops_for(fa, a, fb, b) + all_ops_for(fb, b, fa, a)
+            # the same number on both sides through two different routes
+            fa2 = rng.choice(rf)
+            cases += all_ops_for(fa, a, fa2, a, ops=(0, 1, 3, 4, 7))
+        # base forms of the same pairs, so that every group has a reference answer
+        for fa in int_forms(a):
+            for fb, b in [(1, 1), (0, 10), (1, -1)]:
+                cases += all_ops_for(fa, a, fb, b) + all_ops_for(fb, b, fa, a)
+            for fa2 in int_forms(a):
+                cases += all_ops_for(fa, a, fa2, a, ops=(0, 1, 3, 4, 7))
+    return cases
+
+
+def gen_routes_float(chk):
+    cases = []
+    floats = [2.5, -1.0, 0.0, 1e19, 2.0**64, 2.0**127, 2.0**128, -(2.0**63)]
+    for z in RPOOL:
+        forms = [f for f in route_forms(z, chk.thorough) if chk.thorough or f % 100 in (4, 10) or f // 100 in (2, 3)]
+        near = float(z) if abs(z) < 2**1000 else None
+        for f in forms:
+            for y in floats + ([near] if near is not None else []):
+                for o in (3, 4, 7):
+                    cases.append([o, f, z, 5, f2b(y)]); cases.append([o, 5, f2b(y), f, z])
+    return cases
 
 
 def rand_float(rng, nice):
@@ -417,7 +492,9 @@ def main():
         fcases = [c for c in cases if c not in icases]
     else:
         icases, box_n = gen_int(chk)
-        fcases = gen_float(chk)
+        route_cases = gen_routes(chk)
+        icases += route_cases
+        fcases = gen_float(chk) + gen_routes_float(chk)
 
     known_by_jid = {}
     for k in chk.known:
@@ -447,7 +524,12 @@ def main():
             if out and out[0] == "CRASH":
                 bad.setdefault(i, ("release" if rel else "debug", out, "process died"))
             elif v[:1] == [0]:
-                bad.setdefault(i, ("release" if rel else "debug", out, REASON.get(v[1], str(v))))
+                why = REASON.get(v[1], str(v))
+                if out == [9] and max(icases[i][1], icases[i][3]) >= 100:
+                    why = "the supply route failed to deliver the operand"
+                elif max(icases[i][1], icases[i][3]) >= 100:
+                    why += " (operand supplied through %s)" % ", ".join(form_name(f) for f in (icases[i][1], icases[i][3]) if f >= 100)
+                bad.setdefault(i, ("release" if rel else "debug", out, why))
             elif v[:1] == [3]:
                 raw_needed.append((i, rel, v[1]))
     if raw_needed:
@@ -535,7 +617,7 @@ def main():
         if len(set(o for o, _ in d.values())) > 1:
             idx = sorted(i for _, i in d.values())
             fbad.setdefault(idx[0], ("debug", rf["impl"][False][idx[0]], "answer depends on the form/width of an operand: " +
-                                     "; ".join("%s/%s -> %s" % (FORMS[k[0]], FORMS[k[1]], list(o)) for k, (o, _) in sorted(d.items()))))
+                                     "; ".join("%s/%s -> %s" % (form_name(k[0]), form_name(k[1]), list(o)) for k, (o, _) in sorted(d.items()))))
 
     # ---------------- coverage ----------------
     H = collections.defaultdict(collections.Counter)     # histogram name -> bucket -> count (per case, debug profile)
@@ -546,7 +628,8 @@ def main():
         unary = c[0] == 6
         oc = int_outcome_class(c, out, jv)
         H["integer leg: operator"][OPS[c[0]]] += 1
-        H["integer leg: operand forms"][FORMS[c[1]] + ("" if unary else " , " + FORMS[c[3]])] += 1
+        H["integer leg: supply route"][" , ".join(sorted(set(ROUTES[f // 100] if f >= 100 else "literal" if f == 0 else "From (i64/u64/i128/u128)" for f in ((c[1],) if unary else (c[1], c[3])))))] += 1
+        H["integer leg: operand forms"][form_name(c[1]) + ("" if unary else " , " + form_name(c[3]))] += 1
         H["integer leg: magnitude of a"][magnitude_bucket(c[2])] += 1
         if not unary:
             H["integer leg: magnitude of b"][magnitude_bucket(c[4])] += 1
@@ -563,7 +646,7 @@ def main():
         unary = c[0] == 6
         x = operand_value(c[1], c[2]); y = None if unary else operand_value(c[3], c[4])
         H["float leg: operator"][OPS[c[0]]] += 1
-        H["float leg: operand forms"][FORMS[c[1]] + ("" if unary else " , " + FORMS[c[3]])] += 1
+        H["float leg: operand forms"][form_name(c[1]) + ("" if unary else " , " + form_name(c[3]))] += 1
         H["float leg: operand a"][float_class(x)] += 1
         if not unary:
             H["float leg: operand b"][float_class(y)] += 1
@@ -583,13 +666,15 @@ def main():
     chk.cov["distinct_nontrivial"] = len(nontriv)
     chk.cov["rule"] = ("integer leg: boundary pool (%d values: 0, +-1, +-2, 2^31+-1, 2^32+-1, 2^53+-1, +-2^63, +-(2^63+-1), 2^64+-1, +-2^127, +-(2^127+-1), 2^128-1, small exponents) squared x "
                        "{+,-,*,//,%%,**,cmp} + unary minus x every pair of operand forms able to hold the numbers (first %d cases, exhaustive), "
-                       "plus seeded random 128-bit pairs (all widths); float leg: float pool^2, pool integers x floats in every integer form and both orders, "
+                       "plus seeded random 128-bit pairs (all widths), plus the supply-route leg: every value of the route pool (type edges i8..u128, 2^128-2^63+-1, 2^128-1, ...) delivered through "
+                       "Value::from / Serde / struct field / Vec element / map value / deserialize round trip / Serde(Some) at every Rust integer type able to hold it, x all operators, both operand positions; float leg: float pool^2, pool integers x floats in every integer form and both orders, "
                        "floats adjacent to the pool integers, seeded random floats (dyadic and raw bit patterns); every case runs in a debug and a release build. "
                        "non-trivial = distinct (operator, a, b) number triple (forms merged) that the oracle judged and accepted and where an operand is >= 2^31 in magnitude or the "
                        "result >= 2^63, or a // or %% with a negative operand; for the float leg: a judged comparison, or a // %% with a negative or non-integral operand" % (len(POOL), box_n))
     chk.cov["exhaustive"] = False
     chk.cov["exhaustive_subbox_cases"] = box_n
     chk.cov["integer_cases"] = len(icases)
+    chk.cov["supply_route_cases"] = (len(route_cases) + len([c for c in fcases if max(c[1], c[3]) >= 100])) if not chk.replay else 0
     chk.cov["float_cases"] = len(fcases)
     chk.cov["float_cases_judged"] = fjudged
     pick = sorted(set(i for i in (0, len(icases) // 3, len(icases) // 2, len(icases) - 1) if 0 <= i < len(icases)))
